@@ -4,6 +4,7 @@ C15 — a suite's configuration always means what its suite string says.
 -/
 import OtpVerif.Lemmas.SuiteParse
 import OtpVerif.Lemmas.SuiteComplete
+import OtpVerif.Lemmas.SuiteExact
 
 namespace OtpVerif.Props.C15
 open OtpVerif OtpVerif.Std OtpVerif.Model OtpVerif.Lemmas
@@ -111,6 +112,41 @@ theorem C15_iff (raw : Bytes) (hrep : representable raw) (cfg : SuiteConfig) :
     newRawSuite raw = .ok cfg ↔ Spec.denote raw = some cfg :=
   ⟨fun h => (C15_newRawSuite raw cfg h).1, fun h => C15_complete raw cfg h hrep⟩
 
+/-- a registered name is accepted with the configuration its name says (no representability needed: the registry speaks
+for challenge formats and unit-less time steps the parser does not read) -/
+theorem C15_registered (raw : Bytes) (cfg : SuiteConfig) (h : Spec.denote raw = some cfg) (hk : isKnownSuite raw = true) :
+    newRawSuite raw = .ok cfg := by
+  unfold isKnownSuite at hk
+  cases hl : registryLookup raw with
+  | none => rw [hl] at hk; cases hk
+  | some c =>
+    have hm := registryLookup_mem raw c hl
+    have h1 := List.all_eq_true.mp C15_registry (raw, c) hm
+    simp only [decide_eq_true_eq] at h1
+    rw [h] at h1
+    injection h1 with h1
+    have h2 := C15_instantiable (raw, c) hm
+    rw [h1]; exact h2
+
+/-- **C15, exact language**: `NewRawSuite` accepts a string, with a configuration, exactly when the naming scheme reads the
+string as that configuration and the string is either an advertised name or made of tokens a configuration can represent.
+Nothing else is accepted, nothing of that kind is refused, and what is accepted is never approximated. -/
+theorem C15_exact (raw : Bytes) (cfg : SuiteConfig) :
+    newRawSuite raw = .ok cfg ↔ Spec.denote raw = some cfg ∧ (isKnownSuite raw = true ∨ representable raw) := by
+  constructor
+  · intro h
+    refine ⟨(C15_newRawSuite raw cfg h).1, ?_⟩
+    unfold newRawSuite at h
+    unfold isKnownSuite
+    cases hl : registryLookup raw with
+    | some c => left; rfl
+    | none =>
+      rw [hl] at h
+      right; exact parseRawSuite_representable raw cfg h
+  · rintro ⟨hd, hk | hr⟩
+    · exact C15_registered raw cfg hd hk
+    · exact C15_complete raw cfg hd hr
+
 -- non-vacuity: an unregistered well-formed string is accepted by the parser and denotes what it says
 -- "OCRA-1:HOTP-SHA256-7:C-QN10-PSHA1-S064-T5M"
 example : newRawSuite [79, 67, 82, 65, 45, 49, 58, 72, 79, 84, 80, 45, 83, 72, 65, 50, 53, 54, 45, 55, 58, 67, 45, 81, 78, 49, 48, 45, 80, 83, 72, 65, 49, 45, 83, 48, 54, 52, 45, 84, 53, 77] =
@@ -133,4 +169,6 @@ end OtpVerif.Props.C15
 #print axioms OtpVerif.Props.C15.C15_rejects
 #print axioms OtpVerif.Props.C15.C15_complete
 #print axioms OtpVerif.Props.C15.C15_iff
+#print axioms OtpVerif.Props.C15.C15_registered
+#print axioms OtpVerif.Props.C15.C15_exact
 #print axioms OtpVerif.Props.C15.C15_instantiable
